@@ -18,121 +18,205 @@ variable {K V : Type} [DecidableEq K] [DecidableEq V] (c : Cfg K V)
 /-! ## 1. Reads return the most recent write in scope (session ▹ block ▹ last write-out) -/
 
 theorem get_returns_view (s : St K V) (hm : s.metered = false) (k : K) :
-    s.get c k = (s, view c s k) := sorry
+    s.get c k = (s, view c s k) := get_unmetered c s hm k
 
 theorem has_returns_view (s : St K V) (hm : s.metered = false) (k : K) :
-    s.has c k = (s, (view c s k).isSome) := sorry
+    s.has c k = (s, (view c s k).isSome) := has_unmetered c s hm k
 
 /-- iteration enumerates the keys of the tree in range that are not deleted in an overlay and
     reports for each the value a `get` would return -/
 theorem iter_returns_view (s : St K V) (hm : s.metered = false) (lo hi : Option K) (asc : Bool) :
     s.iter c lo hi asc =
       (s, ((s.tree.rangeKeys c lo hi asc).filter (fun k => !s.deleted c k)).map
-            (fun k => (k, view c s k))) := sorry
+            (fun k => (k, view c s k))) := iter_unmetered c s hm lo hi asc
 
 theorem view_set (s : St K V) (hm : s.metered = false) (k : K) (v : V) (hv : v ≠ c.tomb) :
-    (s.set c k v).2 = true ∧ view c (s.set c k v).1 = upd (view c s) k (some v) := sorry
+    (s.set c k v).2 = true ∧ view c (s.set c k v).1 = upd (view c s) k (some v) := by
+  have h := view_set_gen c s hm k v
+  refine ⟨h.1, ?_⟩
+  rw [h.2]
+  simp [dec, hv]
 
 /-- the in-band marker: storing the literal TOMBSTONE value is a delete (known finding KF-C09-1:
     the one value for which "reads return the most recent write" fails) -/
 theorem set_tombstone_is_delete (s : St K V) (hm : s.metered = false) (k : K) :
-    view c (s.set c k c.tomb).1 = upd (view c s) k none := sorry
+    view c (s.set c k c.tomb).1 = upd (view c s) k none := by
+  rw [(view_set_gen c s hm k c.tomb).2]
+  simp [dec]
 
 /-! ## 2. A deleted key reads as absent -/
 
 theorem view_del (s : St K V) (hm : s.metered = false) (k : K) :
-    view c (s.del c k) = upd (view c s) k none := sorry
+    view c (s.del c k) = upd (view c s) k none := view_del_gen c s hm k
 
 theorem deleted_reads_absent (s : St K V) (hm : s.metered = false) (k : K) :
-    ((s.del c k).get c k).2 = none ∧ ((s.del c k).has c k).2 = false := sorry
+    ((s.del c k).get c k).2 = none ∧ ((s.del c k).has c k).2 = false := by
+  have hm' : (s.del c k).metered = false := (del_data c s k).2.trans hm
+  rw [get_unmetered c _ hm', has_unmetered c _ hm', view_del_gen c s hm]
+  simp [upd]
 
 /-! ## 3. Sessions: writes of a discarded session are never visible -/
 
-theorem view_begin (s : St K V) : view c s.begin = baseView c s := sorry
+theorem view_begin (s : St K V) : view c s.begin = baseView c s := by
+  funext k
+  simp [view, St.begin, baseView, blockView]
 
-theorem baseView_begin (s : St K V) : baseView c s.begin = baseView c s := sorry
+theorem baseView_begin (s : St K V) : baseView c s.begin = baseView c s := rfl
 
 theorem session_writes_keep_base (s : St K V) (h : s.sess.isSome) (k : K) (v : V) :
-    baseView c (s.set c k v).1 = baseView c s ∧ baseView c (s.del c k) = baseView c s := sorry
+    baseView c (s.set c k v).1 = baseView c s ∧ baseView c (s.del c k) = baseView c s := by
+  cases hs : s.sess with
+  | none => simp [hs] at h
+  | some o =>
+    rw [set_sess c s o hs, del_sess c s o hs]
+    exact ⟨rfl, rfl⟩
 
-theorem discard_invisible (s : St K V) : view c s.dsess = baseView c s ∧ s.dsess.sess = none := sorry
+theorem discard_invisible (s : St K V) : view c s.dsess = baseView c s ∧ s.dsess.sess = none := by
+  refine ⟨?_, rfl⟩
+  funext k
+  simp [view, St.dsess, baseView, blockView]
 
-theorem csess_keeps_view (s s' : St K V) (h : s.csess = some s') :
-    view c s' = view c s ∧ baseView c s' = view c s ∧ s'.sess = none := sorry
+/-- committing the session keeps what readers see (`wf`: overlays hold no key twice, which
+    `wf_step` shows for every reachable state) -/
+theorem csess_keeps_view (s s' : St K V) (wf : s.WF) (h : s.csess = some s') :
+    view c s' = view c s ∧ baseView c s' = view c s ∧ s'.sess = none :=
+  csess_keeps_view_of_nodup c s s' h wf.2.1
 
-theorem csess_panics_iff_no_session (s : St K V) : s.csess = none ↔ s.sess = none := sorry
+theorem csess_panics_iff_no_session (s : St K V) : s.csess = none ↔ s.sess = none := by
+  unfold St.csess
+  cases s.sess <;> simp
 
 /-- a whole session that ends in a discard leaves the state exactly as it was -/
 theorem discarded_session_noop (s : St K V) (hm : s.metered = false) (hs : s.sess = none)
     (ws : List (Op K V)) (hw : ∀ o ∈ ws, o.isKeyWrite = true ∨ o.isRead = true) :
-    (run c s (.begin :: ws ++ [.dsess])).1 = s := sorry
+    (run c s (.begin :: ws ++ [.dsess])).1 = s := by
+  rw [List.cons_append, run_cons_fst, run_append_fst]
+  obtain ⟨o', h⟩ := run_session_writes c (step c s .begin).1 hm [] rfl ws hw
+  rw [h]
+  show ({ s with sess := none } : St K V) = s
+  cases s
+  simp only at hs
+  subst hs
+  rfl
 
 /-! ## 4. Commit persists exactly the block's surviving writes as a new immutable version -/
 
-theorem commit_persists_block (s : St K V) (wf : s.tree.WF) :
+theorem commit_persists_block (s : St K V) (wf : s.WF) :
     (∀ k, (s.commit c).tree.get k = baseView c s k) ∧
     view c (s.commit c) = baseView c s ∧
     (s.commit c).tree.version = s.tree.version + 1 ∧
-    (∀ k, (s.commit c).tree.getVersioned ((s.tree.version + 1 : Nat) : Int) k = baseView c s k) := sorry
+    (∀ k, (s.commit c).tree.getVersioned ((s.tree.version + 1 : Nat) : Int) k = baseView c s k) :=
+  commit_persists_block_of_nodup c s wf.2.2 wf.1
 
-theorem wf_empty (rot : Rot) : (Tree.empty rot : Tree K V).WF := sorry
+theorem wf_empty (rot : Rot) : (Tree.empty rot : Tree K V).WF := by
+  simp [Tree.WF, Tree.empty]
 
-theorem wf_step (s : St K V) (wf : s.WF) (op : Op K V) : (step c s op).1.WF := sorry
+theorem wf_step (s : St K V) (wf : s.WF) (op : Op K V) : (step c s op).1.WF := step_WF c s wf op
+
+/-- every state reachable from a fresh store is well formed -/
+theorem wf_reachable (rot : Rot) (ops : List (Op K V)) :
+    (run c (St.new (Tree.empty rot)) ops).1.WF := by
+  have h0 : (St.new (Tree.empty rot) : St K V).WF := by
+    refine ⟨?_, ?_, wf_empty rot⟩
+    · simp [St.new, akeys]
+    · intro o ho; simp [St.new] at ho
+  suffices ∀ (ops : List (Op K V)) (s : St K V), s.WF → (run c s ops).1.WF from this ops _ h0
+  intro ops
+  induction ops with
+  | nil => intro s h; simpa [run] using h
+  | cons op ops ih =>
+    intro s h
+    have := ih (step c s op).1 (wf_step c s h op)
+    simpa [run] using this
 
 /-- earlier versions keep returning their old values (or nothing, once rotated away) -/
 theorem old_versions_immutable (s : St K V) (wf : s.tree.WF) (op : Op K V) (ver : Int) (k : K)
     (hver : ver ≤ (s.tree.version : Int)) :
     (step c s op).1.tree.getVersioned ver k = s.tree.getVersioned ver k ∨
-    (step c s op).1.tree.getVersioned ver k = none := sorry
+    (step c s op).1.tree.getVersioned ver k = none := by
+  have _ := wf
+  by_cases hc : op = .commit
+  · subst hc
+    have hv := writeInto_versions c s.cache s.tree
+    have h := commit_getVersioned_old (writeInto c s.tree s.cache) ver k (by rw [hv.2.1]; exact hver)
+    rw [getVersioned_congr s.tree (writeInto c s.tree s.cache) hv.1] at h
+    exact h
+  · exact Or.inl (getVersioned_congr _ _ (step_noncommit_versions c s op hc).1 ver k)
 
 theorem noncommit_keeps_versions (s : St K V) (op : Op K V) (h : op ≠ .commit) :
     (step c s op).1.tree.versions = s.tree.versions ∧ (step c s op).1.tree.version = s.tree.version := by
-  sorry
+  exact step_noncommit_versions c s op h
 
 /-- reopening the database returns the last commit -/
 theorem reopen_returns_last_commit (s : St K V) (wf : s.tree.WF) (k : K) :
-    view c (step c s .reopen).1 k = s.tree.getVersioned (s.tree.version : Int) k := sorry
+    view c (step c s .reopen).1 k = s.tree.getVersioned (s.tree.version : Int) k := by
+  have _ := wf
+  rw [← reopen_get]
+  simp [step, view, St.new, blockView]
 
 /-! ## 5. The root hash input (the write log) is a function of the writes only -/
 
 /-- reads leave an unmetered state untouched -/
 theorem reads_change_nothing (s : St K V) (hm : s.metered = false) (op : Op K V)
-    (hr : op.isRead = true) : (step c s op).1 = s := sorry
+    (hr : op.isRead = true) : (step c s op).1 = s := step_read_unmetered c s hm op hr
 
 /-- metered or not, reads never touch overlays or tree (only the gas counter) -/
 theorem reads_never_touch_data (s : St K V) (op : Op K V) (hr : op.isRead = true) :
-    (step c s op).1.tree = s.tree ∧ (step c s op).1.cache = s.cache ∧ (step c s op).1.sess = s.sess := sorry
+    (step c s op).1.tree = s.tree ∧ (step c s op).1.cache = s.cache ∧ (step c s op).1.sess = s.sess := by
+  have h := step_read_gasOnly c s op hr
+  exact ⟨h.1, h.2.1, h.2.2.1⟩
 
 theorem erase_reads_same_state (s : St K V) (hm : s.metered = false) (ops : List (Op K V))
     (hnm : ∀ op ∈ ops, op.isMeteredNew = false) :
-    (run c s (ops.filter (fun o => !o.isRead))).1 = (run c s ops).1 := sorry
+    (run c s (ops.filter (fun o => !o.isRead))).1 = (run c s ops).1 := by
+  induction ops generalizing s with
+  | nil => rfl
+  | cons op t ih =>
+    have hnm' : ∀ op ∈ t, op.isMeteredNew = false := fun o ho => hnm o (List.mem_cons_of_mem _ ho)
+    by_cases hr : op.isRead = true
+    · rw [List.filter_cons_of_neg (by simp [hr]), run_cons_fst, step_read_unmetered c s hm op hr]
+      exact ih s hm hnm'
+    · rw [List.filter_cons_of_pos (by simp [hr]), run_cons_fst, run_cons_fst]
+      exact ih _ (step_unmetered c s hm op (hnm op List.mem_cons_self)) hnm'
 
 theorem log_changes_only_at_write_commit_reopen (s : St K V) (op : Op K V)
     (h : match op with | .write | .commit | .reopen => False | _ => True) :
-    (step c s op).1.tree.log = s.tree.log := sorry
+    (step c s op).1.tree.log = s.tree.log := step_log c s op h
 
 /-- `Write()` replays the block cache in first-write order; tombstones become removals -/
 theorem commit_log_first_write_order (s : St K V) :
-    (s.commit c).tree.log = s.tree.log ++ s.cache.map (toTreeOp c) ++ [.save] := sorry
+    (s.commit c).tree.log = s.tree.log ++ s.cache.map (toTreeOp c) ++ [.save] := by
+  simp only [St.commit]
+  rw [(commit_fields _).2.2.1, writeInto_log]
 
 /-- a committed session lands in the block cache in first-write order, behind the keys
     the block already wrote -/
 theorem csess_first_write_order (s s' : St K V) (o : List (K × V)) (ho : s.sess = some o)
     (hn : (akeys o).Nodup) (h : s.csess = some s') :
-    akeys s'.cache = akeys s.cache ++ (akeys o).filter (fun k => decide (k ∉ akeys s.cache)) := sorry
+    akeys s'.cache = akeys s.cache ++ (akeys o).filter (fun k => decide (k ∉ akeys s.cache)) := by
+  rw [csess_of_some s o ho] at h
+  have h' := (Option.some.inj h).symm
+  subst h'
+  exact akeys_foldl_upsert o s.cache hn
 
 /-! ## 6. Gas metering -/
 
 theorem gas_monotone (s : St K V) (op : Op K V)
     (h : match op with | .newState _ | .reopen => False | _ => True) :
-    s.gas.consumed ≤ (step c s op).1.gas.consumed := sorry
+    s.gas.consumed ≤ (step c s op).1.gas.consumed := step_gas c s op h
 
 /-- once `consumed ≥ limit` the block cache refuses: writes fail and change nothing, reads fall
     through to the tree -/
 theorem gas_refusal (s : St K V) (hm : s.metered = true) (hx : s.gas.consumed ≥ s.gas.limit)
     (hs : s.sess = none) (k : K) (v : V) :
     s.set c k v = (s, false) ∧ s.del c k = s ∧ s.get c k = (s, s.tree.get k) ∧
-    s.has c k = (s, s.tree.has k) := sorry
+    s.has c k = (s, s.tree.has k) := by
+  have hg : ∀ cost, s.gas.consumeStrict cost = none := fun cost => consumeStrict_none _ cost hx
+  refine ⟨?_, ?_, ?_, ?_⟩
+  · simp [St.set, hs, hm, hg]
+  · simp [St.del, hs, hm, hg]
+  · simp [St.get, St.cacheGet, hs, hm, hg]
+  · simp [St.has, St.cacheHas, hs, hm, hg]
 
 /-! ## Non-vacuity: the hypotheses are met by concrete non-trivial states -/
 
@@ -142,6 +226,12 @@ def exState : St Nat Nat := (run exCfg (St.new (Tree.empty ⟨1, 0, 0⟩))
 
 example : exState.metered = false ∧ exState.sess.isSome ∧ exState.tree.WF ∧
     view exCfg exState 1 = none ∧ view exCfg exState 3 = some 30 ∧
-    baseView exCfg exState 1 = some 10 ∧ exState.tree.version = 1 := sorry
+    baseView exCfg exState 1 = some 10 ∧ exState.tree.version = 1 := by
+  have hv : exState.tree.versions = [(1, [(1, 10), (2, 20)])] := by decide
+  have hn : exState.tree.version = 1 := by decide
+  refine ⟨by decide, by decide, ?_, by decide, by decide, by decide, hn⟩
+  unfold Tree.WF
+  rw [hv, hn]
+  simp
 
 end OLP.Props.C09
